@@ -25,6 +25,12 @@ class Tracked:
         self.d = d
         self.items = items           # list of (kind, object, sid, original)
 
+    def begin(self):
+        """the first record of a history: string ids, kinds, and for members the index of their (tracked) class"""
+        class_idx = {it[3]: k + 1 for k, it in enumerate(self.items) if it[0] == "class"}
+        cls = [class_idx.get(it[1].get_class_name(), 0) if it[0] in ("method", "field") else 0 for it in self.items]
+        return dict(op="begin", item=0, name=0, obs=[], sid=[it[2] for it in self.items], kinds=[it[0] for it in self.items], cls=cls, err="")
+
     def name_for(self, kind, n):
         return "Ln/N%d;" % n if kind == "class" else "x%d" % n
 
@@ -127,7 +133,7 @@ def run(chk):
     for st in leaves:
         t = fresh_universe(dex, raw)
         starts.append(len(recs))
-        recs.append(dict(op="begin", item=0, name=0, obs=[], sid=[it[2] for it in t.items], err=""))
+        recs.append(t.begin())
         for (op, i, n) in st["hist"]:
             err = t.apply(op, i, n)
             recs.append(dict(op=op, item=i, name=n, obs=t.observe(), sid=[], err=err or ""))
@@ -146,7 +152,7 @@ def run(chk):
     for h in range(30 if quick else 600):
         t = fresh_universe(dex, raw) if h % 2 == 0 else shipped_universe(dex, shipped, rnd)
         starts.append(len(recs))
-        recs.append(dict(op="begin", item=0, name=0, obs=[], sid=[it[2] for it in t.items], err=""))
+        recs.append(t.begin())
         ren = [i + 1 for i, it in enumerate(t.items) if it[0] != "const"]
         for _ in range(rnd.randrange(3, 25)):
             i = rnd.choice(ren)
@@ -175,7 +181,7 @@ def run(chk):
                           dict(source=src, event=dict(op=rec["op"], item=rec["item"], name=rec["name"]), observed=rec["obs"], wrong_items=sorted(wrong - unexplained)))
         if unexplained:
             kinds = sorted({("exception" if rec["err"] else "value")})
-            chk.violation("C17:unexplained:%s" % "+".join(kinds), "Rename_Trace: observed name is neither the dictionary value nor a name leaked through a shared string id",
+            chk.violation("C17:unexplained:%s" % "+".join(kinds), "Rename_Trace: observed name is neither the dictionary value nor what the hook model (the recorded known finding, exactly) predicts",
                           dict(source=src, event=dict(op=rec["op"], item=rec["item"], name=rec["name"], error=rec["err"]), observed=rec["obs"], items=sorted(unexplained)))
     # binding self-test
     ok_idx = next((i for i in range(1, n_model) if i not in rejected and recs[i]["op"] == "rename" and recs[i - 1]["op"] == "begin"), None)
@@ -188,4 +194,4 @@ def run(chk):
             raise tlc.TLCError("binding self-test failed")
         chk.extra["self_test_rejected"] = True
     chk.assumptions += ["observations: get_name() of methods/fields/classes, get_string() of const-string instructions; 0 = original, k = k-th new name",
-                        "a difference is attributed to the recorded known finding only if the observed name was assigned to *another* item sharing the same string id"]
+                        "a difference is attributed to the recorded known finding only if the hook model of Rename.tla (string-id keyed hook table, id / encoded caches, class-rename cascade), advanced along the same history, predicts exactly the observed name"]
